@@ -1609,6 +1609,29 @@ func ruleValidateUpFront(c *Ctx, rule string, fns []*ssa.Function) {
 					best = d
 				}
 			}
+			// the alphabet's own validator called on the sequence outside any loop, its verdict leading to an
+			// error return, is a check of every letter up front
+			for _, b := range fn.Blocks {
+				if depth(b) != 0 {
+					continue
+				}
+				for _, ins := range b.Instrs {
+					call, ok := ins.(*ssa.Call)
+					if !ok {
+						continue
+					}
+					switch calleeName(&call.Call) {
+					case "AllValid", "AllValidQLetter", "Validate":
+					default:
+						continue
+					}
+					for _, a := range call.Call.Args {
+						if stripConv(a) == ssa.Value(prm) {
+							best = 0
+						}
+					}
+				}
+			}
 			switch {
 			case best < 0:
 				c.bad(rule, key, fn.Pos(), "no test of the "+name+"'s letter indices leads to an error: an illegal letter is used as a subscript of the matrix")
@@ -1880,5 +1903,297 @@ func ruleQualCount(c *Ctx, rule string) {
 	}
 	if n == 0 {
 		c.und(rule, "fastq/quality-decode", token.NoPos, "no decode of a quality byte found in the FASTQ reader")
+	}
+}
+
+// ---- clipordered (C06): a clipped span is sliced only when it is not empty ----
+
+// ruleClipOrdered: Stitch and Compose clip each feature to the sequence —
+// Slice(max(s-offset, 0), min(e-offset, len)) — and a feature that lies wholly
+// before or after the sequence clips to bounds in the wrong order. Every such
+// Slice call is reached only under a test that orders its two bounds (lo < hi,
+// lo <= hi) or that found the clipped length positive; without one the call
+// panics for a feature outside the sequence instead of contributing nothing.
+func ruleClipOrdered(c *Ctx, rule string) {
+	n := 0
+	for _, name := range []string{"Stitch", "Compose"} {
+		root := c.fn("seq/sequtils", name)
+		keys := map[string]int{}
+		for _, fn := range privateReach(root) {
+			for _, b := range fn.Blocks {
+				for _, ins := range b.Instrs {
+					call, ok := ins.(*ssa.Call)
+					if !ok || !call.Call.IsInvoke() || call.Call.Method.Name() != "Slice" || len(call.Call.Args) != 2 {
+						continue
+					}
+					lo, hi := call.Call.Args[0], call.Call.Args[1]
+					isCall := func(v ssa.Value, nm string) *ssa.Call {
+						cl, ok := v.(*ssa.Call)
+						if !ok {
+							return nil
+						}
+						if calleeName(&cl.Call) == nm || builtinCall(cl, nm) != nil {
+							return cl
+						}
+						return nil
+					}
+					if isCall(lo, "max") == nil || isCall(hi, "min") == nil {
+						continue
+					}
+					n++
+					c.Funcs[funcName(fn)] = true
+					key := numberedKey(keys, "sequtils."+name+"/clipped-span-sliced-only-when-not-empty")
+					// a clipped length: max(0, min(..) - max(..)), or that difference itself
+					clippedLen := func(v ssa.Value) bool {
+						if mc := isCall(v, "max"); mc != nil {
+							for _, a := range mc.Call.Args {
+								if bo, ok := a.(*ssa.BinOp); ok && bo.Op == token.SUB && isCall(bo.X, "min") != nil && isCall(bo.Y, "max") != nil {
+									return true
+								}
+							}
+							return false
+						}
+						bo, ok := v.(*ssa.BinOp)
+						return ok && bo.Op == token.SUB && isCall(bo.X, "min") != nil && isCall(bo.Y, "max") != nil
+					}
+					ordered := false
+					for _, bf := range branchesAt(b) {
+						x, y := bf.cond.X, bf.cond.Y
+						switch {
+						case sameRead(x, lo, 0) && sameRead(y, hi, 0):
+							if op := effectiveOp(bf, true); op == token.LSS || op == token.LEQ {
+								ordered = true
+							}
+						case sameRead(x, hi, 0) && sameRead(y, lo, 0):
+							if op := effectiveOp(bf, true); op == token.GTR || op == token.GEQ {
+								ordered = true
+							}
+						case clippedLen(x):
+							if k, ok := constIntVal(y); ok {
+								op := effectiveOp(bf, true)
+								if (k == 0 && (op == token.GTR || op == token.NEQ)) || (k >= 1 && (op == token.GEQ || op == token.GTR)) {
+									ordered = true
+								}
+							}
+						case clippedLen(y):
+							if k, ok := constIntVal(x); ok {
+								op := effectiveOp(bf, false)
+								if (k == 0 && (op == token.GTR || op == token.NEQ)) || (k >= 1 && (op == token.GEQ || op == token.GTR)) {
+									ordered = true
+								}
+							}
+						}
+					}
+					if ordered {
+						c.ok(rule, key, call.Pos(), "the clipped bounds are handed to Slice only under a test that found them in order (or the clipped length positive)")
+					} else {
+						c.bad(rule, key, call.Pos(), "the clipped bounds max(..), min(..) are handed to Slice without a test that they are in order: a feature that lies wholly before or after the sequence clips to start > end, and the slice expression panics instead of the feature contributing nothing")
+					}
+				}
+			}
+		}
+	}
+	if n == 0 {
+		c.und(rule, "sequtils/clipped-span", token.NoPos, "no Slice call with clipped bounds found in Stitch or Compose")
+	}
+}
+
+// ---- trapcount (C15): every trapezoid put on the merger's list is counted ----
+
+// ruleTrapCount: FinaliseMerge hands out exactly trapCount trapezoids from the
+// head of the list, so a trapezoid linked in without the count going up pushes
+// the one at the tail out of the result — a seed region the aligner never
+// sees. Insertions are the stores `m.trapList = x.join(m.trapList)` (a retired
+// trapezoid) and the calls of prependFrontTo (a trapezoid split in two where
+// the query has a run of invalid letters). From each, every path to a return
+// or back to the insertion passes an increment of trapCount.
+func ruleTrapCount(c *Ctx, rule string) {
+	pkg := modPath + "/align/pals/filter"
+	sp := c.SPkgs[c.pkg("align/pals/filter").PkgPath]
+	n := 0
+	keys := map[string]int{}
+	for _, fn := range srcFuncs(sp) {
+		isInc := func(ins ssa.Instruction) bool {
+			st, ok := ins.(*ssa.Store)
+			if !ok {
+				return false
+			}
+			if name, ok := fieldOf(st.Addr, pkg, "Merger"); !ok || name != "trapCount" {
+				return false
+			}
+			bo, ok := st.Val.(*ssa.BinOp)
+			if !ok || bo.Op != token.ADD {
+				return false
+			}
+			k, isK := constIntVal(bo.Y)
+			return isK && k >= 1 && loadOfField(bo.X, pkg, "Merger", "trapCount")
+		}
+		for _, b := range fn.Blocks {
+			for idx, ins := range b.Instrs {
+				what := ""
+				switch x := ins.(type) {
+				case *ssa.Store:
+					if name, ok := fieldOf(x.Addr, pkg, "Merger"); ok && name == "trapList" {
+						if call, ok := x.Val.(*ssa.Call); ok && calleeName(&call.Call) == "join" {
+							for _, a := range call.Call.Args {
+								if loadOfField(a, pkg, "Merger", "trapList") {
+									what = "a retired trapezoid is put at the head of the list"
+								}
+							}
+						}
+					}
+				case *ssa.Call:
+					if calleeName(&x.Call) == "prependFrontTo" {
+						what = "a trapezoid is split in two"
+					}
+				}
+				if what == "" {
+					continue
+				}
+				n++
+				c.Funcs[funcName(fn)] = true
+				key := numberedKey(keys, funcName(fn)+"/insertion-counted")
+				// forward: can a return (or this insertion again) be reached without an increment?
+				var escape ssa.Instruction
+				seen := map[*ssa.BasicBlock]bool{}
+				var walk func(blk *ssa.BasicBlock, from int)
+				walk = func(blk *ssa.BasicBlock, from int) {
+					if escape != nil {
+						return
+					}
+					for i := from; i < len(blk.Instrs); i++ {
+						in := blk.Instrs[i]
+						if isInc(in) {
+							return
+						}
+						if in == ins && !(blk == b && from == idx+1 && i < from) {
+							escape = in
+							return
+						}
+						if r, ok := in.(*ssa.Return); ok {
+							escape = r
+							return
+						}
+					}
+					for _, sc := range blk.Succs {
+						if sc == b {
+							// back to the insertion's block: from its top
+							if !seen[sc] {
+								seen[sc] = true
+								walk(sc, 0)
+							}
+							continue
+						}
+						if !seen[sc] {
+							seen[sc] = true
+							walk(sc, 0)
+						}
+					}
+				}
+				walk(b, idx+1)
+				if escape == nil {
+					c.ok(rule, key, ins.Pos(), "where "+what+", every path on counts it before the function returns or inserts again")
+				} else {
+					c.bad(rule, key, ins.Pos(), "where "+what+", a path reaches "+c.pos(escape.Pos())+" without trapCount going up: FinaliseMerge hands out trapCount trapezoids from the head of the list, so the one at its tail — a seed region found by the filter — is silently dropped and the repeat it covers is never aligned")
+				}
+			}
+		}
+	}
+	if n == 0 {
+		c.und(rule, "filter.Merger/insertions", token.NoPos, "no insertion into the merger's trapezoid list found")
+	}
+}
+
+// ---- argroles (C08, C09): the aligner bodies get the reference as reference ----
+
+// ruleArgRoles: the scoring matrix is indexed [reference letter][query
+// letter] and need not be symmetric, and the pairs returned name the reference
+// first. In each Align method every call of the aligner's body
+// (alignLetters / alignQLetters) passes letters taken from the reference
+// parameter first and letters taken from the query parameter second; a call
+// with the two exchanged (to keep the longer sequence on the columns, say)
+// scores under the transposed matrix, whatever is done to the pairs afterwards.
+func ruleArgRoles(c *Ctx, rule string) {
+	n := 0
+	for _, a := range []string{"NW", "NWAffine", "SW", "SWAffine", "Fitted", "FittedAffine"} {
+		fn := c.fn("align", a+".Align")
+		if len(fn.Params) < 3 {
+			c.und(rule, "align."+a+".Align/params", fn.Pos(), "Align does not have a receiver and two sequence parameters")
+			continue
+		}
+		c.Funcs[funcName(fn)] = true
+		var root func(v ssa.Value, d int) ssa.Value
+		root = func(v ssa.Value, d int) ssa.Value {
+			if d > 8 {
+				return nil
+			}
+			switch x := v.(type) {
+			case *ssa.Parameter:
+				return x
+			case *ssa.TypeAssert:
+				return root(x.X, d+1)
+			case *ssa.Extract:
+				return root(x.Tuple, d+1)
+			case *ssa.ChangeType:
+				return root(x.X, d+1)
+			case *ssa.ChangeInterface:
+				return root(x.X, d+1)
+			case *ssa.MakeInterface:
+				return root(x.X, d+1)
+			case *ssa.Call:
+				if x.Call.IsInvoke() && x.Call.Method.Name() == "Slice" {
+					return root(x.Call.Value, d+1)
+				}
+			case *ssa.Phi:
+				var r ssa.Value
+				for _, e := range x.Edges {
+					re := root(e, d+1)
+					if re == nil || (r != nil && re != r) {
+						return nil
+					}
+					r = re
+				}
+				return r
+			}
+			return nil
+		}
+		k := 0
+		for _, g := range privateReach(fn) {
+			if g != fn {
+				continue
+			}
+			for _, b := range g.Blocks {
+				for _, ins := range b.Instrs {
+					call, ok := ins.(*ssa.Call)
+					if !ok {
+						continue
+					}
+					nm := calleeName(&call.Call)
+					if nm != "alignLetters" && nm != "alignQLetters" {
+						continue
+					}
+					args := call.Call.Args
+					if len(args) < 3 {
+						continue
+					}
+					// receiver first for a static method call
+					r0, r1 := root(args[len(args)-3], 0), root(args[len(args)-2], 0)
+					k++
+					n++
+					key := fmt.Sprintf("align.%s.Align/%s#%d/reference-first", a, nm, k)
+					switch {
+					case r0 == ssa.Value(fn.Params[1]) && r1 == ssa.Value(fn.Params[2]):
+						c.ok(rule, key, call.Pos(), "the body is handed the reference's letters first and the query's second")
+					case r0 == ssa.Value(fn.Params[2]) && r1 == ssa.Value(fn.Params[1]):
+						c.bad(rule, key, call.Pos(), "the aligner's body is handed the query's letters as the reference and the reference's as the query: the scoring matrix is indexed [reference letter][query letter] and need not be symmetric, so the alignment found (and every score in it) is that of the transposed matrix — inverting the pairs afterwards does not undo that")
+					default:
+						c.und(rule, key, call.Pos(), "cannot trace the sequences handed to the aligner's body back to Align's parameters")
+					}
+				}
+			}
+		}
+	}
+	if n == 0 {
+		c.und(rule, "align/Align-bodies", token.NoPos, "no call of an aligner body found in the Align methods")
 	}
 }
